@@ -15,8 +15,8 @@ RULE = (
 )
 ASSUMPTIONS = ["prototype *selection* is C02's subject; here the flagged prototypes are taken as given", ">= 2 classes, finite non-negative symmetric weights (premise of the statement)"]
 BUDGET = {
-    "quick": {"examples": 3200, "shards": 8, "min_nontrivial": 500},
-    "thorough": {"examples": 64000, "shards": 16, "min_nontrivial": 10000, "max_wall": 3000},
+    "quick": {"examples": 9600, "shards": 16, "min_nontrivial": 500},
+    "thorough": {"examples": 256000, "shards": 16, "min_nontrivial": 10000, "max_wall": 3000},
 }
 
 
